@@ -121,6 +121,24 @@ SPECS = {
             "seeds for the histograms are random 64-bit values from the harness's own generator (seeded by VERIF_SEED)",
         ],
     },
+    "geometry": {
+        "module": "GeometryTrace",
+        "release": True,
+        "rule": ("I->S: exhaustive lattice configurations -- circle pairs with centres in a 9x9 (thorough 11x11) window and radii 1..5 (6), "
+                 "circles against lines through two lattice points with primitive directions, line pairs, points against circles and lines; "
+                 "every tangency through Pythagorean triples is among them -- plus dyadic real-valued configurations (multiples of 2^-10, "
+                 "magnitude 1000) and constructed outer/inner tangencies, tangent lines and 2^-29..2^-26 shallow overlaps at arbitrary "
+                 "dyadic positions. The specification decides the exact kind by comparing squared integers (BigInt at scale 2^-30) and "
+                 "demands it when the configuration is exactly tangent or >= 2^-20 away from a boundary between kinds (not judged in "
+                 "between: a band much wider than the library's 1e-9), and checks EVERY returned point against both primitives with "
+                 "tolerance 1e-7. Non-trivial = every configuration."),
+        "assumptions": [
+            "all generated coordinates are dyadic rationals, hence exact both as f64 and as integers of the specification; non-dyadic inputs "
+            "are not covered",
+            "returned points are logged rounded to 2^-30; the tolerance carries that unit of slack",
+            "the specification is an exact oracle on representable configurations, not a model of floating-point error",
+        ],
+    },
 }
 
 
